@@ -206,6 +206,8 @@ pub async fn emit_hsack(run: &mut Run, ep: &mut Endpoint, c: &HsackCase, verbose
     while ep.out_rx.try_recv().is_ok() {}
     let mut outs = vec![];
     let mut freed_wrong: Vec<u32> = vec![];
+    let mut best_cum = c.pc;
+    let mut stale_window: Vec<u32> = vec![];
     for (cum, arwnd, gaps) in &c.sacks {
         let mut v = Vec::with_capacity(12 + 4 * gaps.len());
         v.extend_from_slice(&cum.to_be_bytes()); v.extend_from_slice(&arwnd.to_be_bytes());
@@ -217,6 +219,10 @@ pub async fn emit_hsack(run: &mut Run, ep: &mut Endpoint, c: &HsackCase, verbose
         while let Ok(p) = ep.out_rx.try_recv() { rexb += p.len().saturating_sub(12); }
         let after = ep.sctp.verif_sent_queue();
         let (rw, pc) = ep.sctp.verif_sack_view();
+        // oracle (independent of the model): a SACK whose cumulative TSN is serially not behind the newest one seen
+        // carries the current window; the sender must be using it afterwards
+        let not_behind = (cum.wrapping_sub(best_cum) as i32) >= 0;
+        if not_behind { best_cum = *cum; if rw != *arwnd && !stale_window.contains(cum) { stale_window.push(*cum); } }
         let fl = ep.sctp.verif_snapshot().flight_size;
         for r in &c.q {
             let freed = match after.iter().find(|x| x.tsn == r.tsn) { None => true, Some(x) => x.acked && !r.acked };
@@ -229,6 +235,10 @@ pub async fn emit_hsack(run: &mut Run, ep: &mut Endpoint, c: &HsackCase, verbose
     for t in &freed_wrong {
         run.fail("sack:record-freed-but-receiver-does-not-hold-it", &format!("hsack {input}"), &format!("TSN {t} left the sent queue or lost its payload; the receiver holds {}", show_u32s(&c.held)));
         if verbose { println!("ORACLE-FAIL sack:record-freed-but-receiver-does-not-hold-it TSN {t}"); }
+    }
+    for t in &stale_window {
+        run.fail("window:advertised-window-of-the-newest-sack-ignored", &format!("hsack {input}"), &format!("after the SACK with cumulative TSN {t} (serially the newest so far) the sender's peer_rwnd is not that SACK's a_rwnd"));
+        if verbose { println!("ORACLE-FAIL window:advertised-window-of-the-newest-sack-ignored cum {t}"); }
     }
     run.case("hsack", &input, &out, true);
 }
